@@ -2,7 +2,7 @@
    float-valued results over QN = option Q (None = NaN), for every size of every array.
    amplitudes_true_Q, mean_amps_Q, waveform_durations_Q, get_depths_Q are the model of Model.v (the
    operation sequence of phylib's code) instantiated with exact rational operations. *)
-From Coq Require Import ZArith QArith List Bool Sorted.
+From Coq Require Import ZArith QArith List Bool Sorted Lia.
 From PV Require Import C09.Model C09.Spec C09.Proofs C09.Proofs2 C09.Proofs3 C09.Proofs4.
 Import ListNotations.
 Open Scope Z_scope.
@@ -129,7 +129,7 @@ Proof. split; [vm_compute; reflexivity|]. cbn. intros s [<-|[<-|[<-|[<-|[]]]]]; 
 Example C09_ex_peak : IsPeakAmp (unwh (ai_wmi ex_in) [[0; 5]; [4; -1]]) 2 2 14.
 Proof.
   exists [4; 14]. split; [split; [reflexivity|]|].
-  - intros [|[|c]] Hc; [| |exfalso; abstract (repeat apply Nat.succ_lt_mono in Hc; inversion Hc)].
+  - intros [|[|c]] Hc; [| |exfalso; lia].
     + exists 4, 0. vm_compute. repeat split; auto; intros x [<-|[<-|[]]]; discriminate.
     + exists 9, (-5). vm_compute. repeat split; auto; intros x [<-|[<-|[]]]; discriminate.
   - split; [cbn; auto|]. intros x [<-|[<-|[]]]; discriminate.
